@@ -396,7 +396,7 @@ def run(tier: str, seed: int, st: core.ProofStatus) -> core.Result:
         for f in sorted(corpus.glob("*.json")):
             cases.append(json.loads(f.read_text()))
     cases += table_cases(excl_dirs, excl_exts)
-    for _ in range(150 if tier == "quick" else 4000):
+    for _ in range(400 if tier == "quick" else 4000):
         cases.append(gen_case(rng, excl_dirs, excl_exts))
     evaluate(cases, res)
     res.assumptions += ["no symlinks, no unreadable directories", "path components never contain '/' or glob metacharacters other than in patterns"]
